@@ -502,6 +502,40 @@ pub fn parse(s: &str) -> R<Doc> {
     Ok(Doc { has_decl, root })
 }
 
+/// Canonical dump of the infoset (expanded names, sorted attributes, concatenated character data of
+/// every element, child element order) for cross-checking this parser against another one.
+pub fn infoset(doc: &Doc) -> String {
+    fn esc(s: &str) -> String {
+        let mut o = String::new();
+        for c in s.chars() {
+            match c {
+                '\\' => o.push_str("\\\\"),
+                '\n' => o.push_str("\\n"),
+                '\t' => o.push_str("\\t"),
+                '\r' => o.push_str("\\r"),
+                c => o.push(c),
+            }
+        }
+        o
+    }
+    fn dump(e: &Elem, depth: usize, out: &mut String) {
+        let ind = " ".repeat(depth);
+        out.push_str(&format!("{ind}E {{{}}}{}\n", e.ns, e.local));
+        let mut attrs: Vec<(String, String, String)> = e.attrs.iter().map(|a| (a.ns.clone(), a.local.clone(), a.value.clone())).collect();
+        attrs.sort();
+        for (ns, l, v) in attrs {
+            out.push_str(&format!("{ind} A {{{ns}}}{l}={}\n", esc(&v)));
+        }
+        out.push_str(&format!("{ind} T {}\n", esc(&e.text())));
+        for c in e.child_elems() {
+            dump(c, depth + 1, out);
+        }
+    }
+    let mut out = String::new();
+    dump(&doc.root, 0, &mut out);
+    out
+}
+
 /// escape for use as text content
 pub fn esc_text(s: &str) -> String {
     let mut o = String::new();
